@@ -13,7 +13,7 @@ import (
 func init() {
 	register(&Check{
 		ID:     "C10",
-		Rule:   "moments: every moment from the Xiaohan instant of the base year (1900-01-06 02:03:57 for the default) to 31 December of the clock's year x the 13 slot entries (00:00, 01:00, 03:00, ..., 23:00) x day-boundary convention {1,2} (thorough: all days; quick: 1900, 1984, the last 2 years), plus for every Jie instant t in the whole span the moments {t-1s, t, start of t's slot, end of t's slot}; base years {1, 1600, 1984, 2000} on a stride of the 1984..now span; and for base years B in {900, 1200, 1500, 1582, 1583, 1700, 1900, 1984, 2000, now} the pillars of every moment from 20 December of B-1 to 10 January of B (soundness clauses only: what is returned has the pillars, is not before B, is in order). For each moment the four pillars are read from EightChar under the convention and fed to the reverse lookup; oracle: some returned moment lies on the same day in the same two-hour slot (23:00-00:59 is one slot under convention 1), every returned moment converts forward to exactly those pillars under that convention and is not before the base year, and the list is strictly increasing. non-trivial = moments whose slot contains a Jie instant, rat-slot moments, Lichun-day moments, and non-default base years",
+		Rule:   "moments: every moment from the Xiaohan instant of the base year (1900-01-06 02:03:57 for the default) to 31 December of the clock's year x the 13 slot entries (00:00, 01:00, 03:00, ..., 23:00) x day-boundary convention {1,2} (thorough: all days; quick: 1900, 1984, the last 2 years), plus for every Jie instant t in the whole span the moments {t-1s, t, start of t's slot, end of t's slot}; base years {1, 1600, 1984, 2000} on a stride of the 1984..now span; and for base years B in {900, 1200, 1500, 1582, 1583, 1700, 1900, 1984, 2000, now} the pillars of every moment from 20 December of B-1 to 10 January of B (soundness clauses only: what is returned has the pillars, is not before B, is in order); and all base years now-k, k = 0..119 (every residue modulo 60) with moments of the current year, the year before and the base year. For each moment the four pillars are read from EightChar under the convention and fed to the reverse lookup; oracle: some returned moment lies on the same day in the same two-hour slot (23:00-00:59 is one slot under convention 1), every returned moment converts forward to exactly those pillars under that convention and is not before the base year, and the list is strictly increasing. non-trivial = moments whose slot contains a Jie instant, rat-slot moments, Lichun-day moments, and non-default base years",
 		Assume: []string{"the wall clock's year is read once at start and once at the end of each worker; a roll-over discards the last year and marks the run inexhaustive", "forward conversion (EightChar) is taken as given here; its correctness is C05's subject"},
 		Shards: func(tier string, seed int64) []Shard {
 			now := time.Now().Local().Year()
@@ -28,6 +28,7 @@ func init() {
 			for _, by := range []int{900, 1200, 1500, 1582, 1583, 1700, 1900, 1984, 2000, now} {
 				out = append(out, Shard{Kind: "edge", Arg: fmt.Sprint(by), Tier: tier, Seed: seed})
 			}
+			out = append(out, Shard{Kind: "residues", Arg: fmt.Sprint(now), Tier: tier, Seed: seed})
 			return out
 		},
 		Run:           runC10,
@@ -256,6 +257,24 @@ func runC10(w *W) {
 				w.Sample(map[string]interface{}{"jie": tm.Key, "instant": tm.S.ToYmdHms(), "moments": len(ts)})
 			}
 		})
+	case "residues":
+		// every residue of (current year - base year) modulo 60 and 120 years back: moments of the current year (before
+		// and after Lichun), of the year before and of the base year itself, with base years now-k, k = 0..119
+		now := atoi(w.Shard.Arg)
+		for k := 0; k < 120; k++ {
+			by := now - k
+			for _, dt := range [][3]int{{now, 1, 10}, {now, 6, 15}, {now - 1, 6, 15}, {by, 6, 15}, {by, 12, 30}} {
+				if dt[0] < by || (dt[0] == by && dt[1] == 1) {
+					continue
+				}
+				d := &Day{J: r1JDN(dt[0], dt[1], dt[2]), Y: dt[0], M: dt[1], D: dt[2], Ymd: fmt.Sprintf("%04d-%02d-%02d", dt[0], dt[1], dt[2])}
+				d.S = calendar.NewSolarFromYmd(dt[0], dt[1], dt[2])
+				terms := termsOf(d.L())
+				for sect := 1; sect <= 2; sect++ {
+					c10Check(w, d, hms{12, 0, 0}, sect, by, terms)
+				}
+			}
+		}
 	case "edge":
 		// the edge of a base year B in every calendar era: lookups for the pillars of the moments from 20 December of
 		// B-1 to 10 January of B with base year B; whatever comes back must have those pillars, must not lie before
